@@ -172,13 +172,18 @@ CLAIMED = {
         note="Observation values are fixed functions of the event rank (small integers, at most 6 per replication when exact values are requested: TLC integers are 32 bit).",
     ),
     "C04": dict(
-        technique="TLA+ model checking (TLC) of DEVS.tla over the full command alphabet + SimThreads.tla interleavings, bound to the real simulator by replay, interposition scheduling and trace validation",
+        technique="TLA+ model checking (TLC) of DEVS.tla over the full command alphabet and of SimThreads.tla (PlusCal, one label per shared access), bound to the real simulator by replay, access-interposition scheduling of the real threads and trace validation",
         category="model_checking",
         text="(a) all command sequences (initialize, start, step, stop, bounded runs, end_replication, cleanup, pause) up to the bound: refusals "
              "change nothing, notification-stream invariants, ENDED final, run thread gone after ENDED/cleanup; replayed on the real simulators and "
-             "validated from recorded random command sequences. (b) see DESIGN.md: thread-level model of caller and run thread.",
-        design_ref="DESIGN.md §5 C04",
-        note="(a) commands at quiescence; (b) assumes a runnable thread takes a step within the code's one-second waits.",
+             "validated from recorded random command sequences. (b) SimThreads.tla models the caller and the run thread at the granularity of "
+             "accesses to run_state / replication_state / runflag / finalized / the wake-up Event, for scripts over start and stop with failing and "
+             "stop-calling handlers; TLC checks every interleaving (two race families of the pinned tree are set aside by history flags and reported "
+             "as known findings); every TLC behaviour incl. the counterexamples is executed on the REAL threads by a cooperative scheduler that "
+             "interposes on those accesses (announced access = label, shared state = specification state), random real schedules are validated by "
+             "TraceSimThreads.tla, and verdicts come from observables on the real objects at quiescence.",
+        design_ref="DESIGN.md §5 C04, §9.2",
+        note="(a) commands at quiescence; (b) assumes a runnable thread takes a step within the code's one-second waits; initialize/step/end_replication/cleanup overlap and liveness are not modelled.",
     ),
 }
 
